@@ -3,7 +3,7 @@ from harness import tcpgen as G, wire as W, httpgen as H
 from harness.props import c16
 
 RULE = ("random call sequences (fingerprint_tcp/mtu/uptime, fingerprint_http, impersonate_tcp by label and by signature with "
-        "extra_hops/uptime, impersonate_mtu) over packets given as sniffed (explicit fields) AND as constructed Scapy packets with "
+        "extra_hops/uptime, impersonate_mtu by signature and by label incl. MTU records at or below the header size) over databases with all and with only some section kinds, over packets given as sniffed (explicit fields) AND as constructed Scapy packets with "
         "unset automatic fields (chksum/ihl/dataofs/len), with PSH/URG/ECE bits, options and payloads, over bytes / bytearray / "
         "ReceiveBuffer payload buffers (incl. one with a consumed prefix), with before/after snapshots around EVERY call of: "
         "bytes(packet), command(), the explicit-field map of every layer and the identity / parent links of its layer objects (the returned packet must share no layer with its input, and edits to it must not reach the input), buffer bytes/length/search cursors, and a deep dump of "
@@ -31,6 +31,30 @@ def generate(R, tier):
         ops = list(c["ops"])
         for k in range(len(c["payloads"]) - len(extra), len(c["payloads"])):
             ops.insert(R.randint(1, len(ops)), {"op": "http", "payload": k, "btype": "bytes"})
+        # MTU records at / below the header size (MSS <= 0 after subtraction), reached by LABEL: whatever the call does with such a
+        # value, the record it looked up is the database's own object and must stay as loaded
+        tiny = ["[mtu]", "label = Tiny", "sig = 21", "sig = 40", "sig = 41", "label = Tiny6", "sig = 60", "sig = 45", "sig = 61"]
+        files = [list(f) + tiny for f in c["files"]]
+        # a database WITHOUT some section kind (custom files need not have all three): calls that need the missing kind fail,
+        # and failing must not touch what the database holds
+        drop = R.choice(["[mtu", "[tcp", "[http", "[tcp:request", "[http:response"])
+        part, keep = [], True
+        for l in files[0]:
+            if l.startswith("["):
+                keep = not l.startswith(drop)
+            if keep:
+                part.append(l)
+        c["files"] = files + [part or ["[mtu]"]]
+        for _ in range(2):
+            ops.insert(R.randint(1, len(ops)), {"op": "imp_mtu", "pkt": R.randrange(len(c["pkts"])), "label": R.choice(["Tiny", "Tiny6"])})
+        at = R.randint(1, len(ops))
+        burst = [{"op": "load", "file": 2}]
+        for _ in range(4):
+            j = R.randrange(len(c["pkts"]))
+            burst.append(R.choice([{"op": "tcp", "pkt": j, "syn_mss": 0, "md": 35, "mode": "raw"}, {"op": "mtu", "pkt": j, "mode": "raw"},
+                                   {"op": "http", "payload": 0, "btype": "bytes"}, {"op": "imp_mtu", "pkt": j, "label": "Tiny"},
+                                   {"op": "imp_tcp", "pkt": j, "label": "s:unix:Probe:v", "extra_hops": 0}]))
+        ops[at:at] = burst
         c["ops"] = ops
         yield c
 
@@ -163,8 +187,11 @@ def impl_init():
                             problems.append("op %d %s: editing the packet returned by impersonate_tcp changed the input packet" % (k, o))
                 elif o["op"] == "imp_mtu":
                     j = o["pkt"] * 2 + R.randrange(2)
-                    exempt = j
-                    impersonate_mtu(pkts[j], raw_signature=o["sig"], database=db)
+                    if "label" in o:
+                        impersonate_mtu(pkts[j].copy(), raw_label=o["label"], database=db)
+                    else:
+                        exempt = j
+                        impersonate_mtu(pkts[j], raw_signature=o["sig"], database=db)
             except (PacketError, DatabaseError, ValueError):
                 pass
             except Exception as e:   # other failures of impersonation are C05's subject
